@@ -351,6 +351,7 @@ Lemma save_and_log_no_panic : forall a x ri sr name value cat nid input,
 Proof.
   intros. unfold save_and_log.
   destruct (trunc_spec value (max_result_chars (a_opts a))) as (t & -> & _).
+  destruct (trunc_ellipsis_spec input (max_template_chars (a_opts a))) as (kept & -> & Hkept & _).
   destruct (get_run (session_ x) ri); [|discriminate].
   destruct (save_result _ _); discriminate.
 Qed.
